@@ -666,6 +666,49 @@ def r19f(ctx):
         raise AnalysisError(f"R19f fixture: substring-test detector broken: {got}")
 
 
+def r19g(ctx):
+    """A Table method resolves a coordinate against the table before a row sees it.
+
+    Negative numbers count from the current end *of the table*; letters name a column of the table.  Rows resolve the same forms against
+    their own stored width, which is smaller than the table's for every row that does not reach the last column.  So a raw coordinate
+    parameter of a Table method that is handed to a method of a row object (row.get_cell(x), row.set_cell(x, …) …) is resolved per row:
+    `get_column_cells(-1)` then reads a different column in each row.  Rule: in Table methods no coordinate parameter reaches a row-level
+    call with its entry definition (it must have been re-defined first, by `_translate_*` or an unpacking of parsed coordinates).
+    """
+    from ..paths import reaching_defs
+    repo = ctx.repo
+    ctx.rule("R19g", "Table methods hand rows only coordinates already resolved against the table", floor=4)
+    table = repo.cls("Table")
+    COORD_PARAMS = {"x", "y", "z", "t", "coord", "start", "end"}
+    n = 0
+    for name, fs in sorted(table.methods.items()):
+        f = fs[0]
+        params = [a.arg for a in f.all_params() if a.arg in COORD_PARAMS]
+        if not params:
+            continue
+        ax = Axis(f, False)
+        cfg = None
+        for c in walk_no_nested(f.node):
+            if not (isinstance(c, ast.Call) and _recv_kind(ax, c) == "row"):
+                continue
+            used = [a for a in list(c.args) + [k.value for k in c.keywords] for a in ([a] + (list(a.elts) if isinstance(a, ast.Tuple) else []))
+                    if isinstance(a, ast.Name) and a.id in params]
+            for a in used:
+                n += 1
+                if cfg is None:
+                    cfg = cfg_of(f)
+                rd = reaching_defs(cfg, a.id).get(node_of(cfg, c).id, frozenset())
+                raw = cfg.entry.id in rd
+                ctx.instance("R19g", f"{f.file}:{f.ident}", f"{norm(c, 40)}: `{a.id}` " + ("is still the caller's raw value" if raw else "was resolved against the table first"),
+                             ok=not raw, nontrivial=True, line=c.lineno)
+                if raw:
+                    ctx.report("R19g", f, c, f"{norm(c, 50)} receives the raw parameter `{a.id}`",
+                               f"Table.{name} passes its coordinate parameter `{a.id}` to a row without resolving it against the table: a negative number (or a letter beyond "
+                               f"the row) is interpreted against that row's own width, so each row answers for a different column")
+    if n == 0:
+        raise AnalysisError("R19g: no Table method hands a coordinate parameter to a row")
+
+
 def run(ctx):
     r19a(ctx)
     r19b(ctx)
@@ -673,6 +716,7 @@ def run(ctx):
     r19d(ctx)
     r19e(ctx)
     r19f(ctx)
+    r19g(ctx)
     # "a range bounds the result on both sides": the expanding traversals decide which columns/cells a range returns (rule shared with C08)
     from .c08 import r08c
     r08c(ctx)
@@ -683,6 +727,9 @@ from ..selftest import Seed, unparse_seed  # noqa: E402
 _T = "src/odfdo/table.py"
 _R = "src/odfdo/row.py"
 SEEDS = [
+    Seed("get_column_cells hands the raw x to each row", "fault", _T,
+         "        x = self._translate_x_from_any(x)\n        if cell_type:\n            cell_type = cell_type.lower().strip()\n        cells: list[Cell | None] = []",
+         "        if cell_type:\n            cell_type = cell_type.lower().strip()\n        cells: list[Cell | None] = []", "R19g"),
     Seed("named ranges filtered by `in` on the raw table_name argument", "fault", _T, '            if nr.table_name in filter_  # type:ignore', "            if nr.table_name in table_name  # type:ignore", "R19f"),
     Seed("named ranges filtered on the raw argument once str is excluded", "neutral", _T, "        return [\n            nr\n            for nr in all_named_ranges\n" + '            if nr.table_name in filter_  # type:ignore',
          "        if not isinstance(table_name, str):\n            return [nr for nr in all_named_ranges if nr.table_name in table_name]\n        return [\n            nr\n            for nr in all_named_ranges\n" + '            if nr.table_name in filter_  # type:ignore'),
